@@ -665,6 +665,12 @@ def in_order(found):
     return out
 
 
+# item assignment `x[k] = e` counts as a rebinding of x in SOURCE ORDER only while a unit of class FnF (SRCF) is being translated
+# (Translator.get pushes the flag); the SRCE and SRCC units count it through their own wrappers of assigned_names (appended after the
+# other names), and the order of the names is the parameter order of the generated loop Fixpoints that their proofs refer to
+SUBSCRIPT_STORE_IN_ORDER = [False]
+
+
 def assigned_names(stmts):
     """local names (re)bound or mutated by the statements: assignment / loop targets, l.append, l.pop, _iter_next(it)"""
     found = []
@@ -674,8 +680,9 @@ def assigned_names(stmts):
                 found.append((n.lineno, n.col_offset, n.id))
             elif isinstance(n, ast.Attribute) and isinstance(n.ctx, ast.Store) and isinstance(n.value, ast.Name):
                 found.append((n.lineno, n.col_offset, n.value.id))             # x._prefixlen = e rebinds the local object x
-            elif isinstance(n, ast.Subscript) and isinstance(n.ctx, ast.Store) and isinstance(n.value, ast.Name):
-                found.append((n.lineno, n.col_offset, n.value.id))             # (SRCF) x[k] = e rebinds the local list x
+            elif (SUBSCRIPT_STORE_IN_ORDER[-1] and isinstance(n, ast.Subscript) and isinstance(n.ctx, ast.Store)
+                  and isinstance(n.value, ast.Name)):
+                found.append((n.lineno, n.col_offset, n.value.id))             # (SRCF units only) x[k] = e rebinds the local list x
             elif (isinstance(n, ast.Call) and isinstance(n.func, ast.Attribute) and isinstance(n.func.value, ast.Name)
                   and n.func.attr not in PURE_METHODS):
                 found.append((n.lineno, n.col_offset, n.func.value.id))        # any other method call on a name may mutate it
@@ -4332,6 +4339,7 @@ class Translator:
                 bad(node, "use of %s, which is not in the translator's whitelist" % self.mangle(*key))
             self.active.append(key)
             CURFILE.append(self.fn)
+            SUBSCRIPT_STORE_IN_ORDER.append(fn_class(self.out).__name__ == "FnF")
             try:
                 d = fn_class(self.out)(self, recv, name, spec[0][2])
                 d.body_text = d.text()          # also resolves every list type: fail here, scoped to this definition
@@ -4344,6 +4352,7 @@ class Translator:
             finally:
                 self.active.pop()
                 CURFILE.pop()
+                SUBSCRIPT_STORE_IN_ORDER.pop()
             self.done[key] = d
             self.order.append(key)
         return self.done[key]
